@@ -58,7 +58,7 @@ def c10(tier):
 
 META["C10"] = {"files": ["value.c"], "functions": ["cif_value_parse_numb"], "stubs": ["stubs/icu_str.c (exact ICU string helpers)"],
                "assumptions": ["malloc does not fail (allocation failure is C17)"],
-               "outside": ["strings longer than the bound", "correct rounding of to_double/to_digits unless listed in queries",
+               "outside": ["strings longer than the bound", "correct rounding of to_double/to_digits (tried again during the build: to_double on a window of 10^6 integers around 2^53 with a libm-generated log10 table - SAT conversion out of memory at 10 GB; the bignum's symbolic limb pointers defeat the encoding)",
                            "cif_value_autoinit_numb (libc sprintf/strtol)"]}
 
 
@@ -136,6 +136,14 @@ def c08(tier):
         qs.append(Q("C08_first_%s" % mode, "h08_first.c", defs=hook, extra=ICU, unwind=6, mode=mode, unwindset=["harness.*:170"],
                     replay_libs=ICU_LIBS, native_extra=NATIVE_ICU,
                     bounds={"input": "0..4 units, arbitrary chunking"}, note="get_first_char loses / duplicates nothing"))
+    # byte stage: ustream_read_chars over a small byte buffer with a one-byte-per-unit converter model
+    for (nb, bs, pre, cm) in ([(5, 4, 2, 3), (6, 4, 4, 2), (3, 4, 3, 3)] if tier == "quick" else [(5, 4, 2, 3), (6, 4, 4, 2), (3, 4, 3, 3), (8, 4, 4, 3), (9, 4, 1, 4), (4, 4, 0, 2), (7, 3, 3, 5)]):
+        qs.append(Q("C08_ustream_N%d_B%d_P%d_C%d" % (nb, bs, pre, cm), "h08_ustream.c", defs={"NB": nb, "BS": bs, "PRE": pre, "CMAX": cm}, extra=ICU_NORM_CHEAP,
+                    libtus=["ciffile.c", "utils.c", "value.c", "map.c", "packet.c"], gen=gen_write_ctx, unwind=nb + 4, unwindset=VAL_REC + ["harness.*:%d" % (nb + cm + 5)],
+                    mode="safety", replay_libs=ICU_LIBS, native_extra=["stubs/icu_norm_cheap.c"], uthash="model", mem_gb=8, object_bits=10,
+                    bounds={"file": "%d symbolic bytes, %d of them pre-read" % (nb, pre), "byte buffer": "%d bytes" % bs, "units asked for per call": "1..%d symbolic" % cm,
+                            "converter": "model: one code unit per byte, overflow reported when the target is full"},
+                    note="ustream_read_chars: chunking between file, byte buffer and scan buffer loses nothing"))
     return qs
 
 
@@ -367,6 +375,11 @@ def c05(tier):
                             "engine": "every outcome sequence of prepare/bind/step/reset/exec/commit within the documented result codes",
                             "entry state": "autocommit or inside an enclosing transaction (symbolic)"},
                     note="transaction-frame ledger: nothing dirty survives a failure, no transaction left open, handles only on success"))
+    # failed iterator updates (a packet with an item of another loop is refused with CIF_WRONG_LOOP): nothing of the refused update stays
+    import copy
+    for q in c06(tier):
+        if "f" in q.defs["CALLS"].strip('"')[:-1] and (tier != "quick" or q.defs["FAILCALL"] == 0):
+            q = copy.copy(q); q.name = "C05_via_" + q.name; qs.append(q)
     return qs
 
 
@@ -588,7 +601,9 @@ DEFECTS = [("missing_value", "N", {"EXPECT_ERRS": "133", "EXPECT_SET": 1}), ("mi
            ("null_loop", "LV", {"EXPECT_ERRS": "37,134"}), ("empty_loop", "LN", {"EXPECT_ERRS": "36", "EXPECT_ADDP": 0}),
            ("partial_packet", "LNNV", {"EXPECT_ERRS": "53", "EXPECT_ADDP": 1}), ("partial_packet2", "LNNVVV", {"EXPECT_ERRS": "53", "EXPECT_ADDP": 2}),
            ("partial_packet3", "LNNNVVVVNV", {"EXPECT_ERRS": "53", "EXPECT_ADDP": 2, "EXPECT_SET": 1}), ("dup_item", "NVNV", {"EXPECT_ERRS": "41", "DUP_AT": 2, "EXPECT_SET": 1}),
-           ("dup_loop_name", "LNNVV", {"EXPECT_ERRS": "41", "DUP_AT": 2, "EXPECT_ADDP": 1})]
+           ("dup_loop_name", "LNNVV", {"EXPECT_ERRS": "41", "DUP_AT": 2, "EXPECT_ADDP": 1}),
+           ("dup_in_header", "LNNVV", {"EXPECT_ERRS": "41", "SAME_AT": 2, "SAME_AS": 1, "EXPECT_ADDP": 1}),
+           ("dup_in_header3", "LNNNVVVVVV", {"EXPECT_ERRS": "41", "SAME_AT": 3, "SAME_AS": 1, "EXPECT_ADDP": 2})]
 
 
 def script_sites(sc):
@@ -649,8 +664,8 @@ def prod_defect_queries(tier, prefix):
     for (nm, sc, ex) in DEFECTS:
         for so in (0, 1):
             d = dict(ex); d.update({"DEV_KIND": 99, "DEV_POS": 0, "DEV_ANS": 0, "SYNTAX_ONLY": so})
-            if so and "DUP_AT" in d:
-                continue     # duplicate detection needs the store
+            if so and ("DUP_AT" in d or "SAME_AT" in d):
+                continue     # duplicate detection needs the store (syntax-only mode has no container to ask)
             out.append(prod_query("%s_defect_%s_so%d" % (prefix, nm, so), sc, d, "grammatical defect class: code and recovery", tier))
     return out
 
@@ -695,7 +710,22 @@ def gen_write_ctx(wd):
     """write_context_t, extracted from the current ciffile.c (the dispatch harness links ciffile.c as a separate TU)."""
     src = open(os.path.join(REPO, "src", "ciffile.c")).read()
     m = re.search(r"typedef struct \{[^}]*\} write_context_t;", src)
-    open(os.path.join(wd, "write_context_gen.h"), "w").write("/* generated from /repo/src/ciffile.c */\n" + (m.group(0) if m else "#error write_context_t not found") + "\n")
+    u = re.search(r"typedef struct \{(?:[^}]|\n)*?\} uchar_stream_t;", src)
+    fw = re.search(r"#define\s+FOLDING_WINDOW\s+(\d+)", src); pl = re.search(r"#define\s+PREFIX_LENGTH\s+(\d+)", src)
+    open(os.path.join(wd, "write_context_gen.h"), "w").write("/* generated from /repo/src/ciffile.c */\n#include <unicode/ucnv.h>\n" + (u.group(0) if u else "#error uchar_stream_t not found") + "\n"
+                                                            + (m.group(0) if m else "#error write_context_t not found") + "\n"
+                                                            + ("#define FOLD_WINDOW_GEN %s\n" % fw.group(1) if fw else "#error FOLDING_WINDOW not found\n")
+                                                            + ("#define PREFIX_LENGTH_GEN %s\n" % pl.group(1) if pl else "#error PREFIX_LENGTH not found\n")
+                                                            + fold_target_define(src))
+
+
+def fold_target_define(src):
+    """The target length write_text passes to fold_line, as an expression over CIF_LINE_LENGTH (textual extraction from the current source)."""
+    m = re.search(r"int\s+target_length\s*=\s*([^;]+);", src)
+    if not m:
+        return "#error target_length not found\n"
+    e = m.group(1).replace("LINE_LENGTH(context)", "CIF_LINE_LENGTH").replace("FOLDING_WINDOW", "FOLD_WINDOW_GEN").replace("PREFIX_LENGTH", "PREFIX_LENGTH_GEN")
+    return "#define FOLD_TARGET_GEN (%s)\n" % e
 
 
 WRITER_SEAMS = [("ciffile.c", "__CPROVER_file_local_ciffile_c_" + f) for f in ("write_unquoted", "write_quoted", "write_triple_quoted", "write_text")]
@@ -714,9 +744,9 @@ def write_queries(tier, version, prefix):
             inst.append((wfn, k, 0))
     # a line longer than the limit (folding is forced): K symbolic units, 19 concrete fillers, one symbolic unit
     # a line longer than the limit (folding is forced): K symbolic units, then concrete fillers, then `tail` symbolic units
-    inst = [(w, k, f, 0) for (w, k, f) in inst] + ([] if tier == "quick" else [(4, 1, 14, 0), (4, 1, 14, 1)])
+    inst = [(w, k, f, 0) for (w, k, f) in inst] + ([] if tier == "quick" else [(4, 1, 15, 0), (4, 1, 15, 1)])
     for (wfn, k, fill, tail) in inst:
-        WL = 15 if fill else 20            # the smallest limit the folding code accepts (target length LL-8 > window 6) keeps the forced-folding instances small
+        WL = 16 if fill else 20            # the smallest limit the folding code accepts (target length LL-9 > window 6) keeps the forced-folding instances small
         tmo = 600 if tier == "quick" else 3600
         n = k + fill + tail
         sm = 2 * n + 28 if fill else 4 * n + 20
@@ -732,8 +762,8 @@ def write_queries(tier, version, prefix):
                     bounds={"writer": WFN_NAMES[wfn], "value text": "%d symbolic code units over the CIF %s value characters (no CR)%s" % (k + tail, "2.0" if version == 2 else "1.1", ", then %d concrete 'a'%s" % (fill, ", then %d symbolic" % tail if tail else "") if fill else ""),
                             "start column": "0..%d symbolic" % WL, "CIF_LINE_LENGTH": WL},
                     note="presentation writer (arguments assumed to meet oracles/writer_contract.h) -> in-memory sink -> reference scanner (+ text-field decoder)"))
-    for (k, fill) in (((1, 0), (2, 0), (3, 0), (4, 0), (1, 14)) if tier == "quick" else ((1, 0), (2, 0), (3, 0), (4, 0), (5, 0), (6, 0), (1, 14), (2, 14), (2, 21))):
-        WL = 15 if fill else 20
+    for (k, fill) in (((1, 0), (2, 0), (3, 0), (4, 0), (1, 15)) if tier == "quick" else ((1, 0), (2, 0), (3, 0), (4, 0), (5, 0), (6, 0), (1, 15), (2, 15), (2, 22))):
+        WL = 16 if fill else 20
         n = k + fill + (1 if fill else 0)
         qs.append(Q("%s_dispatch_K%d%s" % (prefix, k, "_F%d" % fill if fill else ""), "h02_dispatch.c", defs={"KLEN": k, "FILL": fill, "WVERSION": version, "CIF_API_VERIF_LINE_LENGTH": WL},
                     extra=["stubs/icu_str.c"], libtus=["ciffile.c", "utils.c", "value.c", "map.c", "packet.c"], remove=WRITER_SEAMS, gen=gen_write_ctx, unwind=n + 3,
@@ -742,6 +772,37 @@ def write_queries(tier, version, prefix):
                     bounds={"entry": "write_char", "value text": "%d symbolic code units%s" % (k + (1 if fill else 0), ", with %d concrete 'a' between the last two" % fill if fill else ""),
                             "quoted flag / allow_text / start column": "symbolic", "CIF_LINE_LENGTH": WL},
                     note="write_char -> cif_analyze_string -> choice of writer; writers are stubs asserting oracles/writer_contract.h"))
+    for (nl, wl) in ([(19, 16)] if tier == "quick" else [(19, 16), (24, 16), (24, 20)]):
+        qs.append(Q("%s_fold_line_N%d_L%d" % (prefix, nl, wl), "h02_fold.c", defs={"NL": nl, "CIF_API_VERIF_LINE_LENGTH": wl}, extra=ICU_NORM_CHEAP,
+                    libtus=["ciffile.c", "utils.c", "value.c", "map.c", "packet.c"], gen=gen_write_ctx, unwind=nl + 3, unwindset=VAL_REC + ["u_strlen.*:%d" % (nl + 2)],
+                    mode="safety", replay_libs=ICU_LIBS, native_extra=["stubs/icu_norm_cheap.c"], uthash="model", mem_gb=8, timeout=600 if tier == "quick" else 1800, kf=["FOLD_SEGMENT_OVERLENGTH", "FOLD_SEMI_RUN"],
+                    bounds={"function": "fold_line", "line": "1..%d symbolic code units (no newline)" % nl, "target / window": "LINE_LENGTH - 8 / FOLDING_WINDOW from the source", "CIF_LINE_LENGTH": wl, "prefixing": "symbolic"},
+                    note="fold points: continuation never starts with ';' unless prefixed, no split surrogate pair, physical line within the limit"))
+    if version == 2:
+        # composite values: real write_item / write_list / write_table / write_numb with the leaf writer stubbed by its shown behaviour
+        shapes = {0: "[ ]", 1: "[ a b ]", 2: "[ [ a ] ? . 1.5 ]", 3: "{ 'k':a }", 4: "{ 'k':1.5 }", 5: "{ 'k':{ 'q2':a } }", 6: "{ 'k':[ a ] }", 7: "{ 'k':? }", 8: "[ { 'k':a } b ]", 9: "1.5"}
+        # (element length, key length, line limit): long leaves at limit 20; key-length boundaries at limit 8 (long keys make the
+        # normalisation of the key during the build of the table dominate: key of 12 at limit 20 gave no verdict in 600 s)
+        lens = [(2, 2, 20), (17, 2, 20), (2, 3, 8), (2, 4, 8)] if tier == "quick" else [(2, 2, 20), (17, 2, 20), (20, 2, 20), (2, 2, 8), (2, 3, 8), (2, 4, 8), (2, 5, 8), (5, 3, 8)]
+        for sh, desc in shapes.items():
+            for (el, kl, WL) in lens:
+                if sh in (0, 9) and (el, kl, WL) != (2, 2, 20):
+                    continue
+                if sh in (0, 1, 2, 9) and (kl != 2 or WL != 20):
+                    continue
+                if sh in (5, 6) and tier == "quick":
+                    continue            # nested composite inside a table: ~10 min each, thorough only
+                if sh == 8 and WL != 20:
+                    continue
+                sm = desc.count("a") * el + desc.count("b") * el + desc.count("'k'") * (kl + 3) + 3 * len(desc.split()) + 16
+                qs.append(Q("%s_struct_S%d_E%d_K%d_L%d" % (prefix, sh, el, kl, WL), "h02_struct.c", defs={"SSHAPE": sh, "ELEN": el, "KEYLEN": kl, "CIF_API_VERIF_LINE_LENGTH": WL, "SINK_MAX": sm},
+                            extra=ICU_NORM_CHEAP + ["stubs/ustdio_sink.c"], libtus=["ciffile.c", "utils.c", "value.c", "map.c", "packet.c"], remove=[("ciffile.c", "__CPROVER_file_local_ciffile_c_write_char")],
+                            gen=gen_write_ctx, unwind=max(kl, 3) + 3, unwindset=VAL_REC + ["harness.*:%d" % (sm + 2), "word.*:%d" % (el + 2), "ex_word.*:%d" % (el + 2), "__CPROVER_file_local_ciffile_c_write_char.*:%d" % (max(el, kl) + 2), "u_fprintf.*:26", "strlen.*:12", "memcmp.*:%d" % (2 * kl + 4), "u_strlen.*:%d" % (max(el, kl) + 2), "u_strcpy.*:%d" % (max(el, kl) + 2), "u_strncpy.*:%d" % (max(el, kl) + 2), "u_countChar32.*:%d" % (max(el, kl) + 2),
+                                                                            "__CPROVER_file_local_ciffile_c_write_item:4", "__CPROVER_file_local_ciffile_c_write_list:3", "__CPROVER_file_local_ciffile_c_write_table:3"],
+                            mode="func", replay_libs=ICU_LIBS, native_extra=["stubs/icu_norm_cheap.c", "stubs/ustdio_sink.c"], uthash="model", mem_gb=8, object_bits=10,
+                            timeout=600 if tier == "quick" else 2400, kf=["NUMBER_AFTER_KEY_NOWRAP"],
+                            bounds={"entry": "write_item", "value shape": desc, "leaf texts": "words of %d characters, key of %d" % (el, kl), "start column": "0..%d symbolic" % WL, "CIF_LINE_LENGTH": WL},
+                            note="write_item / write_list / write_table / write_numb with write_char = stub behaving as the writers were shown to; output split into tokens"))
     return qs
 
 
@@ -753,7 +814,7 @@ def c13(tier):
     return write_queries(tier, 1, "C13")
 
 
-META["C02"] = {"files": ["ciffile.c", "utils.c"], "functions": ["write_char", "write_unquoted", "write_quoted", "write_triple_quoted", "write_text", "fold_line",
+META["C02"] = {"files": ["ciffile.c", "utils.c"], "functions": ["write_item", "write_list", "write_table", "write_numb", "write_char", "write_unquoted", "write_quoted", "write_triple_quoted", "write_text", "fold_line",
                                                               "write_literal", "write_uliteral", "write_newline", "cif_analyze_string", "cif_is_reserved_string", "cif_value_get_text", "cif_validate_cif11_characters"],
                "stubs": ["stubs/ustdio_sink.c (u_fprintf / u_fputc in-memory model for exactly the conversions ciffile.c uses; any other conversion is an assertion failure)",
                          "stubs/icu_str.c (loop versions of the ICU string functions)",
@@ -761,7 +822,7 @@ META["C02"] = {"files": ["ciffile.c", "utils.c"], "functions": ["write_char", "w
                          "read-back = reference scanners of oracles/ref_tokenizer.h (each shown equivalent to the real scan function by the C01 unit queries) + reference text-field decoder oracles/ref_textfield.h"],
                "assumptions": ["CIF_LINE_LENGTH = 20 (15 in the forced-folding instances) via the CIF_API_VERIF_LINE_LENGTH hook", "value text of concrete length, contents symbolic; no CR; CIF 2.0 characters restricted to U+09, U+0A, U+20-7E, U+A0-D7FF (no surrogate pairs)",
                                "writer queries assume the writer contract; the dispatch queries prove write_char establishes it"],
-               "outside": ["UTF-8 encoding of the output and the version comment (ICU, write_cif_start)", "the walk that feeds the writer (C14) and the storage below it", "lists / tables / numbers / container and loop headers / data names (write_list, write_table, write_numb, write_container_start, write_loop_start)",
+               "outside": ["UTF-8 encoding of the output and the version comment (ICU, write_cif_start)", "the walk that feeds the writer (C14) and the storage below it", "container and loop headers / data names (write_container_start, write_loop_start, write_item's name part); composite values beyond the enumerated shapes; number formatting (C10)",
                            "values longer than the stated lengths; folding at the real 2048 limit is represented by the shrunk limit", "the real parser end-to-end: the read-back uses the reference scanners and the reference decoder, which the C01 queries show equivalent to scan_* and decode_text within their bounds",
                            "runs of semicolons as long as a line"]}
 META["C13"] = META["C02"]
@@ -923,8 +984,12 @@ MANI["C02"] = {
             "(oracles/writer_contract.h) for ALL value texts of the stated lengths, quoted flag, allow_text and start column; (b) each real "
             "writer (write_unquoted, write_quoted, write_triple_quoted, write_text + fold_line, with write_literal / write_uliteral / "
             "write_newline) under that contract, its output captured by an in-memory u_fprintf model and read back in the same query by "
-            "the reference scanner + text-field decoder: one token, no error, same text, no line over the limit, column bookkeeping exact.",
-    "note": "character values only (the statement's lists, tables, numbers, headers, UTF-8 encoding and the walk are outside; see evidence.outside); "
+            "the reference scanner + text-field decoder: one token, no error, same text, no line over the limit, column bookkeeping exact; "
+            "(c) composite values: the real write_item / write_list / write_table / write_numb / write_literal / write_uliteral on lists, "
+            "tables and nestings of concrete shapes from a symbolic start column, with write_char replaced by a stub behaving as (b) shows: "
+            "the call succeeds, lines within the limit, column exact, output = the token sequence the value denotes.",
+    "note": "values only (container / loop headers, data names, the version comment, UTF-8 encoding and the walk are outside; see evidence.outside); composite shapes: "
+            "9 enumerated shapes with leaves of 2-20 characters and keys of 2-5; "
             "lengths <= 3 symbolic units quick / 6 thorough plus forced-folding instances with concrete filler at a line limit shrunk to 15 by "
             "hook; the read-back is against reference scanners proved equivalent to the real ones in C01 and a reference decoder of the "
             "folding / prefix protocol, not the real parser end-to-end"}
